@@ -227,6 +227,8 @@ class Exec:
         elif kind == 'value':
             _, slot, fn = op
             exp = self.model.value(slot, fn)
+            if slot not in self.slots:
+                raise HarnessError(f'history requests a value from slot {slot} whose construction failed: {[o.get("error") for o, _ in self.steps]}')
             t = self.slots[slot].tasks[fn]
             try:
                 v = t.value
